@@ -42,7 +42,7 @@ NOT_APPLICABLE = {}
 
 GRAM_NOTE = ("Trusts the harness's reference parser (gram/model.go, a ~300-line clean-room restatement of the documented "
              "semantics, itself validated by agreement with the real parser on hundreds of thousands of cases and by planted-mutation probes), "
-             "the generator's domain (<=7 productions, inputs <=40 tokens over a 12-token vocabulary, two lexer profiles: a stateful one "
+             "the generator's domain (<=7 productions, inputs <=40 tokens over a 14-word vocabulary, three lexer profiles: a user-written lexer.Definition with positive token types, a stateful one "
              "with WS/Comment elision and the default text/scanner lexer) and rapid. Cases whose reference evaluation exceeds 20000 steps are discarded and counted, not judged.")
 
 LEX_NOTE = ("Trusts the harness's reference lexer (lexgen/ref.go, written from the documented behaviour; it walks the user's rules without "
@@ -158,7 +158,7 @@ META = {
         engine="gram", design_ref="3/C08",
         technique="property test against an independent left-recursion analysis (nullability fix-point + left-edge reachability) on generated recursive systems (rapid)",
         level="Generated systems of 1-4 mutually referring productions (recursion through unions) with every reference placement the statement lists, "
-              "plus 14 static fixtures with direct struct recursion: Build (with the root struct and with the root union as grammar type) must reject exactly the systems in which the independent analysis finds a "
+              "plus 16 static fixtures with direct struct recursion or recursion through a union with a user-code member, and the repository's example grammars: Build (with the root struct and with the root union as grammar type) must reject exactly the systems in which the independent analysis finds a "
               "production that re-enters itself before consuming. Accepted grammars are parsed on sampled inputs under a crash journal and their "
               "recursion depth (from the Trace output) must stay proportional to the input length. Exploration.",
         note=GRAM_NOTE + " Direct struct recursion cannot be generated with reflect.StructOf; it is covered by hand-written fixtures only."),
